@@ -193,6 +193,7 @@ type simLog struct {
 	faults   [c17MaxEntries + 1]int32
 	// per-kind counters (atomic)
 	nFull, nPrefix, n500, n4xx, nTransport, nBody, nSTH int32
+	nOutside, livelock                                  int32
 	reqLog   [c17MaxEntries + 1][8]int32 // per range start, per attempt (up to 8): outcome code, for the canonical log
 }
 
@@ -227,12 +228,25 @@ func (l *simLog) RoundTrip(req *http.Request) (*http.Response, error) {
 	start, _ := strconv.Atoi(req.URL.Query().Get("start"))
 	end, _ := strconv.Atoi(req.URL.Query().Get("end"))
 	if start < 0 || start >= sc.TreeSize || end < start {
+		// A request outside the tree is answered like a real log would (400). A scanner that keeps asking for
+		// it makes no progress: after a bounded number of such answers the simulated log stops answering, all
+		// goroutines end up durably blocked and the run is classified as "Scan did not terminate".
+		if atomic.AddInt32(&l.nOutside, 1) > 64 {
+			atomic.StoreInt32(&l.livelock, 1)
+			select {}
+		}
 		return l.respond(req, 400, io.NopCloser(strings.NewReader("bad range"))), nil
 	}
 	if end >= sc.TreeSize {
 		end = sc.TreeSize - 1
 	}
 	att := int(atomic.AddInt32(&l.attempts[start], 1)) - 1
+	if att > sc.MaxFaults+16 {
+		// the same range start again and again although every request has been answered correctly since the
+		// fault budget ran out: no progress (see above)
+		atomic.StoreInt32(&l.livelock, 1)
+		select {}
+	}
 	r := kit.NewRng(sc.Seed ^ uint64(start+1)*0x51ed27 ^ uint64(att+1)*0xabcdef1)
 	// pacing: a unique simulated latency derived from (range start, attempt)
 	if sc.LatencyMs > 0 {
@@ -410,6 +424,8 @@ func execC17(t *testing.T, scAny any, keepLog bool) *Outcome {
 	o.Steps = int(srv.nFull + srv.nPrefix + srv.n500 + srv.n4xx + srv.nTransport + srv.nBody)
 
 	switch {
+	case !returned && srv.livelock != 0:
+		o.Fail = Failf("c17.termination", "Scan did not terminate after the faults stopped", "the scanner kept requesting the same range without progress (%d requests outside the tree)", srv.nOutside)
 	case !returned:
 		o.Fail = Failf("c17.termination", "Scan did not terminate after the faults stopped", "bubble ended with: %.300s", leak)
 	case scanErr != nil:
